@@ -16,7 +16,7 @@ import ast
 from ..model import Func, Cls, Lib, AnalysisError
 from ..terms import T, walk_terms
 from ..absint import AV, TOP, is_bot, cav
-from ..walk import (SCOPE_MODULES_C20, ctx_tree, public_callables, norm_stmt, callee_name, callee_func, call_paths)
+from ..walk import (SCOPE_MODULES_C20, ctx_tree, public_callables, norm_stmt, callee_name, callee_func, call_paths, strip_views)
 
 # the one exception named by the property statement
 ALLOWED_MUTATION = {
@@ -148,7 +148,7 @@ def guard_tests_attr_is_none(guards, selfp, attr):
 
 def implies_is_none(cond, pol, param):
     """does `cond == pol` imply `param is None`?"""
-    if cond.op == 'cmp' and cond.args[2].op == 'const' and cond.args[2].args[0] is None and cond.args[1] is param:
+    if cond.op == 'cmp' and cond.args[2].op == 'const' and cond.args[2].args[0] is None and strip_views(cond.args[1]) is param:
         return (cond.args[0] == 'Is' and pol) or (cond.args[0] == 'IsNot' and not pol)
     if cond.op == 'unop' and cond.args[0] == 'Not':
         return implies_is_none(cond.args[1], not pol, param)
